@@ -6,6 +6,7 @@ import GoLevel.Proofs.LocksCloseWait
 import GoLevel.Proofs.LocksRO
 import GoLevel.Proofs.LocksEnabled
 import GoLevel.Proofs.LocksRuns
+import GoLevel.Proofs.LocksKeep
 /-!
 # Property C09 — every call returns; a failing call releases what it acquired; the DB recovers
 
@@ -48,7 +49,17 @@ compaction reported a corruption while a `SetReadOnly` was between its two `sele
 `select` could acquire it.  For that configuration everything but the exact accounting holds
 (`before832_covered`; the accounting: `released_on_return_partial`).
 
-**Still open (model level)**: `readonly_write_slips_through_on_close`.
+**The defect repaired by wp51 (D42)** (`Cfg.asFound`, `readonly_write_slips_through_on_close`): on `closeC` the
+persistent-error loop, holding the write lock of a read-only (or corrupted) DB, gave it back so that `Close` could take
+it with its plain send; a writer that had passed `db.ok()` and was parked in its `select` could take it first — write
+to a read-only DB (`SetReadOnly`), or dereference the nil journal of a DB opened read-only and leave the lock taken
+(`Close` hangs).  Now (`code_keeps_lock`) the loop keeps the lock and closes `compLockedC`, `Close` selects on
+`writeLockC <-` / `<-compLockedC`: `readonly_no_write_after_close` — once `compWriteLocking` is set the token never
+leaves `writeLockC` again, no `Put`/`Write`/`OpenTransaction`/`CompactRange`/`SetReadOnly` gets the lock, before, during
+or after `Close` — and `Close` still returns in every schedule (`code_all_close_returns`, `code_all_progress`: the
+`compLockedC` arm is the step `clAcqKept`; `hang_without_hasperr_keep`, `hang_without_close_select`: each half of the
+repair alone hangs `Close`).  Everything but `readonly_no_write_after_close` also holds for the configuration as found
+(`asFound_covered`).
 
 The leak theorems (`leak_commit`, `leak_opentx`, `leak_largebatch`, `leak_setreadonly`, stated for `Cfg.asIs`)
 show what each of the four repairs prevents: an explicit run and an invariant proving that the resource is
@@ -75,17 +86,32 @@ theorem code_three_fixed :
 
 /-- **the tie of the machine**: `compactionError` in the source has every `select` case and `switch` case of
 `CompErr.MCfg.asCoded`, and nothing else (regenerated facts `Gen.ce…`) -/
-theorem code_comperr_machine : codeCfg.m = CompErr.MCfg.asCoded := by decide
+theorem code_comperr_machine : codeCfg.m = CompErr.MCfg.asCoded true := by decide
+
+/-- … in the form `Covered` asks for: the machine keeps the lock on `closeC` iff `Close` selects on `compLockedC` -/
+theorem code_m : codeCfg.m = CompErr.MCfg.asCoded codeCfg.closeSel := by decide
 
 /-- **the tie of the hand-over**: `SetReadOnly` does not set `compWriteLocking` and gives its own token back on
 its `compPerErrC` arm; `compactionError` sets `compWriteLocking` when it takes `ErrReadOnly`, in `noerr` and in
 `haserr` (regenerated facts; the shape since 832d000) -/
 theorem code_hands_over : codeCfg.HandsOver := by decide
 
+/-- **the tie of the repair of D42**: `compactionError`'s `closeC` case in `hasperr` does
+`if db.compWriteLocking { close(db.compLockedC) }` (not `<-db.writeLockC`), `Close` acquires the write lock with
+`select { case db.writeLockC <- struct{}{}: case <-db.compLockedC: }`, and the rest is as `Cfg.repaired` (regenerated
+facts `ceHasperrKeepsLockOnClose`, `ceHasperrGivesBack`, `lkCloseSelectsCompLocked`, …) -/
+theorem code_keeps_lock : codeCfg.Keeps :=
+  ⟨code_three_fixed, code_comperr_machine, by decide, code_hands_over, by decide⟩
+
 theorem code_covered (s : St) (hr : ReachableNoSR codeCfg s) : Covered codeCfg s :=
-  ⟨code_three_fixed, code_comperr_machine, Or.inl code_hands_over, Or.inr hr⟩
+  ⟨code_three_fixed, code_m, Or.inl code_hands_over, Or.inr hr⟩
 
 theorem repaired_covered (s : St) (hr : Reachable Cfg.repaired s) : Covered Cfg.repaired s :=
+  ⟨⟨rfl, rfl, rfl⟩, rfl, Or.inl (by decide), Or.inl ⟨rfl, Or.inl hr⟩⟩
+
+/-- the source as found by wp51 (the machine gives the lock back on `closeC`, `Close` takes it with a plain send) is
+covered too: accounting, progress, recovery and `Close` returning do not depend on the repair of D42 -/
+theorem asFound_covered (s : St) (hr : Reachable Cfg.asFound s) : Covered Cfg.asFound s :=
   ⟨⟨rfl, rfl, rfl⟩, rfl, Or.inl (by decide), Or.inl ⟨rfl, Or.inl hr⟩⟩
 
 /-- the source between the repair of D23 and 832d000 is covered too (everything but the exact accounting) -/
@@ -374,7 +400,7 @@ theorem leak_largebatch :
 releases the token only from `hasperr`), `SetReadOnly` takes the `closeC` arm of its second `select` and
 returns `ErrClosed`: the token stays in `writeLockC`, `Close` (thread 1) blocks in
 `db.writeLockC <- struct{}{}` for ever. -/
-theorem leak_setreadonly_of (cfg : Cfg) (hm : cfg.m = CompErr.MCfg.asCoded)
+theorem leak_setreadonly_of (cfg : Cfg) (hm : cfg.m = CompErr.MCfg.asCoded cfg.closeSel)
     (hf : cfg.setReadOnlyReleasesOnClose = false) :
     ∃ s, Reachable cfg s ∧ s.ws[0]? = some (.ret false) ∧ s.ws[1]? = some .clAcq ∧
       ∀ t, Steps cfg s t →
@@ -401,7 +427,7 @@ theorem known_finding_setreadonly_close (hf : codeCfg.setReadOnlyReleasesOnClose
     ∃ s, Reachable codeCfg s ∧ s.ws[0]? = some (.ret false) ∧ s.ws[1]? = some .clAcq ∧
       ∀ t, Steps codeCfg s t →
         t.tok = true ∧ tot tokW t.ws = 0 ∧ t.closeTok = false ∧ ∀ (i : Nat), t.ws[i]? ≠ some .clWait :=
-  leak_setreadonly_of codeCfg code_comperr_machine hf
+  leak_setreadonly_of codeCfg code_m hf
 
 /-- the accounting of `released_on_return` fails in the code as it is -/
 theorem asIs_not_released : ∃ s, Reachable Cfg.asIs s ∧ ¬ LocksHaveOwners s :=
@@ -415,7 +441,7 @@ machine as modelled; un-fixing any of them in the source breaks this `decide` -/
 theorem code_all_fixed : codeCfg = Cfg.repaired := by decide
 
 theorem code_covered_all (s : St) (hr : Reachable codeCfg s) : Covered codeCfg s :=
-  ⟨code_three_fixed, code_comperr_machine, Or.inl code_hands_over, Or.inl ⟨by decide, Or.inl hr⟩⟩
+  ⟨code_three_fixed, code_m, Or.inl code_hands_over, Or.inl ⟨by decide, Or.inl hr⟩⟩
 
 /-- for EVERY reachable state of the code's configuration — `SetReadOnly` at any point (also while a
 compaction is in its transient-error retry loop, also concurrently with `Close`), storage failures and
@@ -449,8 +475,8 @@ reset — :
   anywhere else (it never gets the lock);
 * no call blocks (`Progress`), once failures stop every call completes (`RecoversAfterFaults`), `Close` returns
   (`CloseReturns`).
-(After `Close` has closed `closeC` such a call returns `ErrReadOnly` or `ErrClosed` — or, if its `select` runs
-between the machine's give-back and `Close`'s acquire, takes the lock and writes: see the report.) -/
+(After `Close` has closed `closeC` such a call returns `ErrReadOnly` or `ErrClosed`, and never gets the lock either:
+`readonly_no_write_after_close`.) -/
 theorem setReadOnly_takes_effect (s : St) (hr : Reachable codeCfg s) (hro : s.ro = true) :
     (s.closed = false →
       s.eh = .hasperr ∧ s.ehErr = .readonly ∧ s.tok = true ∧ tot tokW s.ws = 0 ∧ s.trOpen = false ∧
@@ -476,7 +502,7 @@ theorem setReadOnly_takes_effect (s : St) (hr : Reachable codeCfg s) (hro : s.ro
   have htok : s.tok = true := by cases h : s.tok <;> simp_all
   have htr : s.trOpen = false := by cases h : s.trOpen <;> simp_all <;> omega
   refine ⟨heh, herr, htok, by omega, htr, fun i p hi ⟨q, hq⟩ => ⟨?_, fun f t hst => ?_⟩⟩
-  · refine ⟨_, Step.selPerErr s i p q hi hq (offPer_of code_comperr_machine heh), ?_⟩
+  · refine ⟨_, Step.selPerErr s i p q hi hq (offPer_of code_m heh), ?_⟩
     have hlt : i < s.ws.length := by
       rcases Nat.lt_or_ge i s.ws.length with h | h
       · exact h
@@ -509,7 +535,7 @@ theorem persistent_error_fails_fast (s : St) (hr : Reachable codeCfg s) (he : s.
         ∀ f t, Step codeCfg f s t → t.ws[i]? = some p ∨ t.ws[i]? = some (.retE s.ehErr)) := by
   have hc := code_covered_all s hr
   have g := covered_goodE codeCfg s hc
-  have hm := code_comperr_machine
+  have hm := code_m
   have hset : ∀ (i : Nat) (p q : Pc), s.ws[i]? = some p → (s.ws.set i q)[i]? = some q := by
     intro i p q hi
     have hlt : i < s.ws.length := by
@@ -613,10 +639,23 @@ theorem hang_without_hasperr_closeC :
     ∃ s, Reachable cfgNoHasperrClose s ∧ s.ws[1]? = some .clAcq ∧ Deadlock cfgNoHasperrClose s :=
   ⟨_, ⟨2, runNoHasperrClose⟩, rfl, ⟨1, _, rfl, rfl⟩, stuck_of_canStep _ _ (by decide)⟩
 
-/-- **`hasperr` whose `closeC` case does not give the token back**: the same. -/
+/-- **`hasperr` whose `closeC` case does not give the token back** (the configuration as found, `Close` with its
+plain send): the same. -/
 theorem hang_without_hasperr_giveback :
     ∃ s, Reachable cfgNoGiveBack s ∧ s.ws[1]? = some .clAcq ∧ Deadlock cfgNoGiveBack s :=
   ⟨_, ⟨2, runNoGiveBack⟩, rfl, ⟨1, _, rfl, rfl⟩, stuck_of_canStep _ _ (by decide)⟩
+
+/-- **`hasperr` whose `closeC` case does not close `compLockedC`** (the code's configuration): the machine returns
+with the lock, `Close` waits in its `select` for ever. -/
+theorem hang_without_hasperr_keep :
+    ∃ s, Reachable cfgNoKeep s ∧ s.ws[1]? = some .clAcq ∧ Deadlock cfgNoKeep s :=
+  ⟨_, ⟨2, runNoKeep⟩, rfl, ⟨1, _, rfl, rfl⟩, stuck_of_canStep _ _ (by decide)⟩
+
+/-- **`Close` without the `compLockedC` arm** while the machine keeps the lock (half of the repair of D42): `Close`
+blocks for ever in `db.writeLockC <- struct{}{}`. -/
+theorem hang_without_close_select :
+    ∃ s, Reachable cfgNoCloseSel s ∧ s.ws[1]? = some .clAcq ∧ Deadlock cfgNoCloseSel s :=
+  ⟨_, ⟨2, runNoCloseSel⟩, rfl, ⟨1, _, rfl, rfl⟩, stuck_of_canStep _ _ (by decide)⟩
 
 /-- **`hasperr` without `case db.writeLockC <- struct{}{}`** breaks `persistent_error_fails_fast`, not liveness:
 after a corruption the machine is in `hasperr`, it has no step of its own left (it never takes the lock), and a
@@ -651,15 +690,80 @@ theorem released_on_return_fails_before_832d000 : ¬ ∀ s, Reachable Cfg.before
 example : Reachable Cfg.repaired stKept ∧ stKept.closeTok = true ∧ stKept.tok = true ∧ stKept.ws[2]? = some .clWait :=
   ⟨⟨4, runKept⟩, rfl, rfl, rfl⟩
 
-/-- **Finding (model level), current source, also after 832d000**: giving the token back on `closeC` lets a writer
-through.
-`SetReadOnly` returned nil; a `Put` called afterwards passed `db.ok()` and reached its `select`; `Close` closed
-`closeC`, `compactionError` took its token back and exited; before `Close` acquires the lock the `Put`'s `select`
-has two ready arms, `writeLockC` and `closeC`: it may take the lock, write to the journal and the memdb of a
-read-only DB, and return nil (thread 1 below).  The same window exists after a corruption error. -/
+/-! ## the defect repaired by wp51 (D42): a write on a read-only DB could take the lock given back for `Close` -/
+
+/-- **DEFECT (repaired, D42)**, on the configuration of the source as found (`Cfg.asFound`: after 832d000, the
+`closeC` case of `hasperr` gives the lock back, `Close` takes it with a plain send) — a decided trace.
+`SetReadOnly` (thread 0) returned nil; a `Put` (thread 1) called afterwards passed `db.ok()` and reached its `select`;
+`Close` (thread 2) closed `closeC`, `compactionError` took its token back and exited.  In the reachable state `s` the
+DB is read-only and closing, `writeLockC` is empty, `Close` has not acquired it yet, and the `Put`'s `select` has two
+ready arms, `writeLockC` and `closeC`: the step to `t` takes the lock — the `Put` is inside `writeLocked` — and the run
+goes on to `u`, where it has written to the journal and the memdb of a read-only DB and returned nil.  (With a DB
+*opened* read-only there is no journal: nil dereference, the lock stays taken, `Close` hangs.)  The same window
+exists after a corruption error.  Reproduced on that source by `vh -prop C18` / `C09`, signatures
+`put:readonly-close-race:write-accepted`, `put:readonly-close-race:panic`, `close:hang:racing-clients`. -/
 theorem readonly_write_slips_through_on_close :
-    ∃ s, Reachable Cfg.repaired s ∧ s.ro = true ∧ s.ws[0]? = some (.ret true) ∧ s.ws[1]? = some (.ret true) :=
-  ⟨_, ⟨3, runROWrite⟩, rfl, rfl, rfl⟩
+    ∃ s t u, Reachable Cfg.asFound s ∧ s.ro = true ∧ s.closed = true ∧ s.tok = false ∧
+      s.ws[0]? = some (.ret true) ∧ s.ws[1]? = some .putSel ∧ s.ws[2]? = some .clAcq ∧
+      Step Cfg.asFound false s t ∧ t.ws[1]? = some .putFlush ∧ tot tokW t.ws = 1 ∧
+      Steps Cfg.asFound t u ∧ u.ro = true ∧ u.ws[1]? = some (.ret true) :=
+  ⟨_, _, stROWrite, ⟨3, runROGap⟩, rfl, rfl, rfl, rfl, rfl, rfl, stepROGap, rfl, by decide,
+    ((Steps.refl _).step (Step.putNoWait _ 1 rfl)).step (Step.putJournalOk _ 1 rfl) |>.step
+      (Step.putUnlock _ 1 true rfl), rfl, rfl⟩
+
+/-- the token is in `writeLockC` and belongs to `compactionError` or to `Close`: no thread is between acquiring and
+releasing the write lock, none between the two `select`s of `SetReadOnly`, no transaction is open -/
+def NoWriteLockHeld (s : St) : Prop :=
+  s.tok = true ∧ (s.ehTok = true ∨ s.closeTok = true) ∧ tot tokW s.ws = 0 ∧ tot srW s.ws = 0 ∧ s.trOpen = false
+
+/-- **A read-only DB takes no write, also while it is being closed** (the repair of D42), in every interleaving of
+the code's configuration — storage failures, corruption errors, `SetReadOnly`, `Close` anywhere.  From every
+reachable state in which `compWriteLocking` is set — `compactionError` holds the write lock: `SetReadOnly` returned nil
+(`compReadOnly` set), or the machine took the lock after a corruption — , in every state of every continuation
+(`Close` not yet called, running, or returned):
+* the token is in `writeLockC` and belongs to `compactionError` or to `Close`; no thread is between acquiring and
+  releasing the write lock (no `Put`/`Delete`/`Write`, `OpenTransaction`, `CompactRange`: `tot tokW = 0`; no
+  `SetReadOnly` between its `select`s: `tot srW = 0`), no transaction is open;
+* a thread at the first `select` of a write-side call moves only by returning the machine's error (`compPerErrC`) or
+  `ErrClosed` — it never takes the `writeLockC` arm;
+* and still nothing blocks: `Progress`, `RecoversAfterFaults`, `CloseReturns` (`Close`'s wait is satisfied by
+  `compLockedC`: step `clAcqKept`). -/
+theorem readonly_no_write_after_close (s : St) (hr : Reachable codeCfg s) (hw : s.cwl = true ∨ s.ro = true) :
+    (∀ t, Steps codeCfg s t →
+      NoWriteLockHeld t ∧
+      (∀ (i : Nat) (p : Pc), t.ws[i]? = some p → AtFirstSelect p → ∀ f u, Step codeCfg f t u →
+        u.ws[i]? = some p ∨ u.ws[i]? = some (.retE t.ehErr) ∨ u.ws[i]? = some (.ret false)) ∧
+      Progress codeCfg t ∧ RecoversAfterFaults codeCfg t ∧ CloseReturns codeCfg t) := by
+  intro t ht
+  have hk := kept_locked codeCfg code_keeps_lock s hr hw
+  have hrt : Reachable codeCfg t := by obtain ⟨n, h0⟩ := hr; exact ⟨n, Steps.trans h0 ht⟩
+  have hkt := kept_locked codeCfg code_keeps_lock t hrt (Or.inl (steps_cwl codeCfg s t ht hk.1))
+  have hc := code_covered_all t hrt
+  exact ⟨⟨hkt.2.1, hkt.2.2.1, hkt.2.2.2.1, hkt.2.2.2.2.1, hkt.2.2.2.2.2⟩,
+    fun i p hi ⟨q, hq⟩ f u hst => sel_thread_step_tok codeCfg t u f hst i p q hi hq hkt.2.1,
+    progress codeCfg t hc, recovers_after_faults codeCfg t hc, close_returns codeCfg t hc⟩
+
+/-- the same for every repaired configuration (`Cfg.Keeps`), in particular `Cfg.repaired` -/
+theorem repaired_no_write_after_close (s : St) (hr : Reachable Cfg.repaired s) (hw : s.cwl = true ∨ s.ro = true) :
+    ∀ t, Steps Cfg.repaired s t → NoWriteLockHeld t := by
+  intro t ht
+  have hkp : Cfg.repaired.Keeps := ⟨⟨rfl, rfl, rfl⟩, rfl, rfl, by decide, rfl⟩
+  have hk := kept_locked _ hkp s hr hw
+  have hrt : Reachable Cfg.repaired t := by obtain ⟨n, h0⟩ := hr; exact ⟨n, Steps.trans h0 ht⟩
+  have hkt := kept_locked _ hkp t hrt (Or.inl (steps_cwl _ s t ht hk.1))
+  exact ⟨hkt.2.1, hkt.2.2.1, hkt.2.2.2.1, hkt.2.2.2.2.1, hkt.2.2.2.2.2⟩
+
+/-- non-vacuity: the schedule of `readonly_write_slips_through_on_close` in the code's configuration — the `Put`
+returns `ErrClosed`, `Close` returns through the `compLockedC` arm, the token never left `writeLockC` -/
+example : Reachable Cfg.repaired stROKept ∧ stROKept.ro = true ∧ stROKept.ws = [.ret true, .ret false, .ret true] ∧
+    NoWriteLockHeld stROKept :=
+  ⟨⟨3, runROKept⟩, rfl, rfl, rfl, Or.inr rfl, by decide, by decide, rfl⟩
+
+/-- the accounting fails in the state of the trace: as found, the DB is read-only and nobody holds its write lock -/
+theorem asFound_lock_not_kept : ¬ ∀ s, Reachable Cfg.asFound s → s.ro = true → NoWriteLockHeld s := by
+  intro h
+  have := (h stROGap ⟨3, runROGap⟩ rfl).1
+  revert this; decide
 
 def theorems : List String :=
   ["GoLevel.C09.code_three_fixed", "GoLevel.C09.code_comperr_machine", "GoLevel.C09.code_hands_over",
@@ -672,9 +776,12 @@ def theorems : List String :=
    "GoLevel.C09.hang_without_noerr_readonly_case", "GoLevel.C09.hang_without_noerr_recv",
    "GoLevel.C09.hang_without_haserr_recv", "GoLevel.C09.hang_without_hasperr_compPerErrC",
    "GoLevel.C09.hang_without_hasperr_compErrC", "GoLevel.C09.hang_without_hasperr_closeC",
-   "GoLevel.C09.hang_without_hasperr_giveback", "GoLevel.C09.write_succeeds_without_hasperr_lock",
+   "GoLevel.C09.hang_without_hasperr_giveback", "GoLevel.C09.hang_without_hasperr_keep",
+   "GoLevel.C09.hang_without_close_select", "GoLevel.C09.write_succeeds_without_hasperr_lock",
    "GoLevel.C09.write_lock_lost", "GoLevel.C09.released_on_return_fails_before_832d000",
-   "GoLevel.C09.readonly_write_slips_through_on_close",
+   "GoLevel.C09.readonly_write_slips_through_on_close", "GoLevel.C09.readonly_no_write_after_close",
+   "GoLevel.C09.repaired_no_write_after_close", "GoLevel.C09.asFound_lock_not_kept",
+   "GoLevel.C09.code_keeps_lock", "GoLevel.C09.code_m", "GoLevel.C09.asFound_covered",
    "GoLevel.C09.released_on_return", "GoLevel.C09.released_on_return_partial", "GoLevel.C09.locks_have_owners",
    "GoLevel.C09.nothing_held_when_quiet", "GoLevel.C09.progress",
    "GoLevel.C09.recovers_after_faults", "GoLevel.C09.close_returns",
